@@ -309,21 +309,34 @@ def unknown_histories(chk, exe, rng, reps):
             pool = []
             for port in (1, 2):
                 for code in (calsim.SHORT, calsim.OPEN, calsim.MATCH):
-                    pool.append((1, None, lambda port=port, code=code: sc.add_reflect(port, code)))
-                pool.append((1, hR, lambda port=port: sc.std1(port, hR, R)))
-                pool.append((1, hQ, lambda port=port: sc.std1(port, hQ, Q)))
-            pool.append((4, None, lambda: sc.add_through(1, 2)))
+                    pool.append((1, None, (port,), lambda port=port, code=code: sc.add_reflect(port, code)))
+                pool.append((1, hR, (port,), lambda port=port: sc.std1(port, hR, R)))
+                pool.append((1, hQ, (port,), lambda port=port: sc.std1(port, hQ, Q)))
+                for g_ in (0.5 + 0j, -0.3j):
+                    hk_ = sc.scalar(g_)
+                    pool.append((1, None, (port,), lambda port=port, hk_=hk_, g_=g_: sc.std1(port, hk_, g_)))
+            pool.append((4, None, (1, 2), lambda: sc.add_through(1, 2)))
             rng.shuffle(pool)
+            if typ in ('UE14', 'E12') or rng.random() < 0.4:
+                # all the reflects of one port first, then the through: that column system is rich, the other stays short of equations
+                # although the total is large enough
+                first_port = rng.choice((1, 2))
+                pool.sort(key=lambda e: 0 if e[2] == (first_port,) else (1 if len(e[2]) == 2 else 2))
             eq_upper, used = 0, set()
+            eq_col = [0] * p                     # 12-/14-term models: one linear system per column, the equations are not shared
+            per_system = typ in ('UE14', 'E12')
             steps = []
-            for cells, hd, adder in pool:
+            for cells, hd, ports_, adder in pool:
                 adder()
                 # upper bound on the equations of the linear systems: cells with a signal path; without leakage terms every measured cell counts
                 eq_upper += cells if leak else p * p
+                for q_ in ports_:
+                    eq_col[q_ - 1] += len(ports_)
                 if hd is not None:
                     used.add(hd)
                 sc.lines.append('cal solve %d' % sc.n)
-                steps.append((len(sc.lines) - 1, eq_upper < x_length + len(used), eq_upper, len(used)))
+                short_col = per_system and any(e_ < 2 * p + 1 for e_ in eq_col)
+                steps.append((len(sc.lines) - 1, eq_upper < x_length + len(used) or short_col, eq_upper, len(used), short_col and not eq_upper < x_length + len(used)))
             ivals = []
             for hd, truth in ((hR, R), (hQ, Q)):
                 sc.lines.append('cal get_parameter_value %d %d %s' % (sc.c, hd, vlib.d2h(sc.fvec[0])))
@@ -339,9 +352,14 @@ def unknown_histories(chk, exe, rng, reps):
             if rc != 0 or len(out) != len(sc.lines):
                 chk.violation('sanitizer-unknown', '%s: crashed / sanitizer report in an add/solve history:\n%s' % (tag, err[-1200:]), sc.lines[:len(out) + 1])
                 return
-            for (isolve, toofew, eq, nu) in steps:
+            for (isolve, toofew, eq, nu, only_col) in steps:
                 res = out[isolve]
                 if toofew:
+                    if only_col:
+                        chk.count('one_column_short_unknown')
+                    if res.startswith('ok') and only_col:
+                        chk.violation('column-short-accepted-unknown', '%s: one column system has fewer equations than its %d error terms (the total, %d, is large enough), yet vnacal_new_solve succeeded' % (tag, 2 * p + 1, eq), sc.lines[:isolve + 1])
+                        return
                     if res.startswith('ok'):
                         chk.violation('too-few-accepted-unknown', '%s: at most %d equations for %d error terms + %d unknown parameters, yet vnacal_new_solve succeeded' % (tag, eq, x_length, nu), sc.lines[:isolve + 1])
                         return
